@@ -261,3 +261,42 @@ Proof.
     subst ls. apply in_lsort_set in Hl. eapply values_cover_bucket; eauto.
   - destruct ms; [discriminate|]. inversion Hs; subst. destruct Hl.
 Qed.
+
+(* ---- histories: the responses are functions of the CURRENT external labels ---- *)
+Lemma reads_current : labelnames_reads_current_ext = true /\ labelvalues_reads_current_ext = true.
+Proof. split; reflexivity. Qed.
+
+Lemma model_store_h_current stored drop ms label (h : labels * labels) :
+  model_store_h stored drop ms label h = model_store stored drop ms label (snd h).
+Proof.
+  unfold model_store_h, model_store, ext_for_names, ext_for_values. destruct reads_current as [-> ->]. reflexivity.
+Qed.
+
+Lemma map_filter_comm {A B} (f : A -> B) (g : B -> bool) (l : list A) :
+  map f (filter (fun x => g (f x)) l) = filter g (map f l).
+Proof. induction l as [|a r IH]; simpl; [reflexivity|]. destruct (g (f a)); simpl; congruence. Qed.
+
+Lemma queried_h_current ms (hs : list (labels * labels)) : map snd (queried_h ms hs) = queried ms (map snd hs).
+Proof.
+  unfold queried_h, queried. apply (map_filter_comm snd (fun e => label_sets_match mname mmatch ms [e])).
+Qed.
+
+Lemma model_proxy_h_current stored (hs : list (labels * labels)) drop ms label :
+  model_proxy_h stored hs drop ms label = model_proxy stored (map snd hs) drop ms label.
+Proof.
+  unfold model_proxy_h, model_proxy, proxy_label_names, proxy_label_values, ext_for_names, ext_for_values.
+  destruct reads_current as [-> ->]. rewrite <- queried_h_current, !map_map. reflexivity.
+Qed.
+
+Theorem history_irrelevant stored drop ms label (inits exts : list labels) :
+  length inits = length exts ->
+  map (model_store_h stored drop ms label) (combine inits exts) = map (model_store stored drop ms label) exts
+  /\ model_proxy_h stored (combine inits exts) drop ms label = model_proxy stored exts drop ms label.
+Proof.
+  intros Hl. assert (Hs : map snd (combine inits exts) = exts).
+  { revert exts Hl. induction inits as [|i r IH]; intros [|e er] Hl; cbn in *; try reflexivity; try discriminate.
+    f_equal. apply IH. lia. }
+  split.
+  - rewrite <- Hs at 2. rewrite map_map. apply map_ext. intros h. apply model_store_h_current.
+  - rewrite model_proxy_h_current, Hs. reflexivity.
+Qed.
